@@ -253,6 +253,8 @@ def run(report, db, tier):
                                  caller.node, caller.qualname, 'the hash is '
                                  'not what is passed to auth_token.join()')
     report.floor('call sites of generate_verification_hash', nsites, 1)
+    sent_unchanged(report, db, cg)
+
 
 
 def find_conversion_helper(db, fi):
@@ -358,3 +360,43 @@ def manual_signed(report, R2, db, helper, term):
         term[2]) > 1 else ('const', False))
     return ('call', ('attr', ('builtin', 'int'), 'from_bytes'),
             (term[2][0], ('const', 'big')), (('signed', signed),), 0)
+
+
+
+def sent_unchanged(report, db, cg):
+    """The hash reaches the session service as computed: join() puts its
+    argument into the request unchanged (no padding, case change, prefix)."""
+    R = report.rule('R17.4', 'the hash is sent as computed: join() posts its '
+                    'argument as serverId, unchanged')
+    AUTH = 'minecraft.authentication'
+    tok = db.get_class(AUTH, 'AuthenticationToken')
+    jn = db.own_method(tok, 'join')
+    mk = db.get_func(AUTH, '_make_request')
+    if jn is None or mk is None or len(jn.params) < 2:
+        raise AnalysisError('AuthenticationToken.join / _make_request '
+                            'vanished')
+    S = shared.summariser(db, cg, opaque=[mk], implicit_raises=False)
+    arg = ('sym', jn.params[1])
+    n = 0
+    for p in S.run(jn):
+        for e in p.flat(('call',)):
+            if not e.calls(mk):
+                continue
+            n += 1
+            payload = e.args[-1] if e.args else dict(e.kwargs).get('data')
+            sid = None
+            if payload is not None and payload[0] == 'dict':
+                for k, v in payload[1]:
+                    if k == ('const', 'serverId'):
+                        sid = v
+            if sid is None or struct(sid) != arg:
+                report.violation(
+                    R, 'join:server-id', jn.path, e.node, jn.qualname,
+                    'join() sends serverId = %s, not the hash it was given: '
+                    'the session service compares the string with the one '
+                    'the server computed' % (show(sid) if sid else None))
+            else:
+                report.ok(R, 'join(): serverId is the argument itself')
+    if not n:
+        raise AnalysisError('join(): no request found', jn.node,
+                            rel(jn.path))
